@@ -531,6 +531,43 @@ def qbeta_point(rng):
     return p, qa, qb
 
 
+
+def kernel_extension(rng, n):
+    """beyond the property's parameter ranges but inside the code's domain (bit-exact tie and exact
+    reflections only): beta quantile with shapes in [0.02, 0.3) - the `t <= 0` start (cpp:490), the
+    reset of a start outside (3e-308, 1 - 2.22e-16) (cpp:512), Newton trial points below 0 or equal
+    to 1 (cpp:538, 542); incomplete beta with shapes up to 1e6 - the continued fractions run into
+    their cap of 300 rounds (cpp:771, 884) and rescale upwards (cpp:875)"""
+    ops = []
+    for _ in range(n):
+        k = rng.randrange(5)
+        if k == 0:
+            p, qa, qb = pq(rng), log_uniform(rng, 0.02, 0.3), log_uniform(rng, 0.02, 0.3)
+        elif k == 1:
+            p, qa, qb = pq(rng), log_uniform(rng, 0.02, 0.3), log_uniform(rng, 1, 200)
+            if rng.random() < 0.5:
+                qa, qb = qb, qa
+        if k <= 1:
+            ops.append("k.qbeta %s %s %s" % (hx(p), hx(qa), hx(qb)))
+            ops.append("refl.qbeta %s %s %s" % (hx(p), hx(qa), hx(qb)))
+            continue
+        al, be = log_uniform(rng, 1e3, 1e6), log_uniform(rng, 1e3, 1e6)
+        if k == 2:      # near the mean: incompletebetafe, cap of 300 rounds
+            m = al / (al + be); sd = math.sqrt(al * be / ((al + be) ** 2 * (al + be + 1)))
+            x = m + sd * rng.uniform(-8, 8)
+        elif k == 3:    # between the mode and the mean: incompletebetafe2
+            x = rng.uniform((al - 1) / (al + be - 2), al / (al + be))
+            if rng.random() < 0.5:
+                x, al, be = 1 - x, be, al
+        else:           # shapes just above the range
+            al, be = log_uniform(rng, 200, 1e3), log_uniform(rng, 200, 1e3)
+            x = beta_x(rng, al, be)
+        x = min(max(x, 1e-9), 1 - 1e-9)
+        ops.append("k.ibeta %s %s %s" % (hx(x), hx(al), hx(be)))
+        ops.append("refl.ibeta %s %s %s" % (hx(x), hx(al), hx(be)))
+    return chunks("kext", ops, 200)
+
+
 def kernel_random(rng, n):
     ops = []
     for _ in range(n):
@@ -558,6 +595,7 @@ def generate(seed, tier):
     cases += explore(rng, 40000 if big else 3000)
     cases += kernel_grid()
     cases += kernel_random(rng, 60000 if big else 6000)
+    cases += kernel_extension(rng, 15000 if big else 1500)
     return cases
 
 
@@ -588,14 +626,135 @@ def coverage_extra(cases, answers):
                     worst[key] = err
             except (ValueError, IndexError):
                 raised += 1
-    return {"search_ops": counts, "search_worst_deviation": {k: float("%.3g" % v) for k, v in sorted(worst.items())},
+    out = branch_coverage(cases)
+    out.update({"search_ops": counts, "search_worst_deviation": {k: float("%.3g" % v) for k, v in sorted(worst.items())},
             "search_unparsed_or_raised": raised, "search_reference": SCIPY_NOTE["status"],
             "search_note": "x.* ops are exploration of the numeric kernels on grids/random points (accuracy vs scipy.special, "
                            "closed-form special cases, identities, monotonicity, inverse relations); they support, and are not "
-                           "part of, obligations/discharged"}
+                           "part of, obligations/discharged"})
+    return out
+
+
+# ---------------------------------------------------------------------------------- branch coverage
+# outcomes that no generated family executes, with the reason (keyed by routine, source text, gcov branch number)
+NOT_EXECUTED = {
+    ("incompleteGamma", "if (pn[5] == 0)", 1):
+        "pn[5] == 0: the denominators of the convergents are positive for x >= p (the only region where the continued "
+        "fraction is entered) and the division by 1e30 keeps them far from underflow; exact cancellation only",
+    ("qChisq", "if ((t = incompleteGamma (p1, xx, g)) < 0)", 1):
+        "incompleteGamma reports an error only for p1 = ch/2 < 0 (xx = v/2 > 0 after the guard): a negative iterate; "
+        "would itself be a violation of guards_total_qChisq (error value inside the domain) - never seen",
+    ("qBeta", "for (i_pb = 0; i_pb < niterations; i_pb++)", 1):
+        "2000 Newton rounds without convergence: not reached by any family (at most a few dozen rounds are seen)",
+    ("qBeta", "for (i_inn = 0, g = 1; i_inn < niterations; i_inn++)", 1):
+        "2000 step halvings (g = 3^-2000 underflows to 0 long before, giving tx = xinbta inside (0,1) and a break): "
+        "needs a NaN y",
+    ("qBeta", "if (tx != 0. && tx != 1.)", 1):
+        "trial point exactly 0: xinbta - adj == 0 needs adj == xinbta bit for bit",
+    ("incompletebetafe", "if (qk != 0)", 1): "qk == 0 exactly: exact cancellation only",
+    ("incompletebetafe", "if (r != 0)", 1): "pk == 0 exactly: exact cancellation only",
+    ("incompletebetafe", "if (fabs(qk) + fabs(pk) > big)", 0):
+        "convergents above 2^52: in every family (shapes 0.1 .. 1e6, > 3e6 rounds observed) the convergents shrink, "
+        "only the upward rescaling occurs",
+    ("incompletebetafe", "if ((fabs(qk) < biginv) || (fabs(pk) < biginv))", 2):
+        "|pk| < 2^-52 while |qk| >= 2^-52: pk/qk converges to a value of order 1, qk falls below first",
+    ("incompletebetafe2", "if (qk != 0)", 1): "qk == 0 exactly: exact cancellation only",
+    ("incompletebetafe2", "if (r != 0)", 1): "pk == 0 exactly: exact cancellation only",
+    ("incompletebetafe2", "if (fabs(qk) + fabs(pk) > big)", 0): "as for incompletebetafe",
+    ("incompletebetafe2", "if ((fabs(qk) < biginv) || (fabs(pk) < biginv))", 2): "as for incompletebetafe",
+}
+# outcomes executed only by the families beyond the property's ranges (`kext`)
+ONLY_BEYOND_RANGE = {
+    ("qBeta", "if (t <= 0.)", 0): "needs 1 - 1/(9 qq) + y sqrt(1/(9 qq)) <= 0, i.e. a working shape qq < ~0.12; the property's quantile range is [0.3, 200]",
+    ("qBeta", "if (xinbta <= lower || xinbta >= upper)", 1): "start value <= 3e-308: shapes < ~0.15",
+    ("qBeta", "if (xinbta <= lower || xinbta >= upper)", 2): "start value >= 1 - 2.22e-16: shapes < ~0.15",
+    ("qBeta", "if (tx >= 0. && tx <= 1.)", 1): "Newton trial point below 0: shapes < 0.3",
+    ("qBeta", "if (tx != 0. && tx != 1.)", 3): "Newton trial point exactly 1: shapes < 0.3 against a large one",
+    ("incompletebetafe", "while (n != 300);", 1): "300 rounds without convergence: shapes >= ~1e4",
+    ("incompletebetafe2", "while (n != 300);", 1): "300 rounds without convergence: shapes >= ~1e4",
+    ("incompletebetafe2", "if ((fabs(qk) < biginv) || (fabs(pk) < biginv))", 1): "upward rescaling in fe2: shapes >= ~300",
+}
+
+
+def _distcov():
+    import importlib.util
+    spec = importlib.util.spec_from_file_location(
+        "gen_distcov", os.path.join(os.path.dirname(os.path.dirname(os.path.abspath(__file__))), "tools", "gen_distcov.py"))
+    m = importlib.util.module_from_spec(spec); spec.loader.exec_module(m)
+    return m
+
+
+def branch_coverage(cases):
+    """per-routine branch coverage of the anchored code under exactly these scripts (gcov); set
+    VERIF_C08_BRANCHCOV=0 to skip"""
+    if os.environ.get("VERIF_C08_BRANCHCOV", "1") == "0":
+        return {"branch_coverage": {"status": "skipped (VERIF_C08_BRANCHCOV=0)"}}
+    try:
+        table, missing, rows = _distcov().measure(cases)
+    except Exception as e:  # no gcov, no compiler ...
+        return {"branch_coverage": {"status": "unavailable: %r" % (e,)}}
+    unexplained = []
+    for name, fn, line, text, counts in rows:
+        for b, n in counts:
+            if n == 0 and (name, text, b) not in NOT_EXECUTED:
+                unexplained.append("%s %s:%d branch %d: %s" % (name, fn, line, b, text))
+    return {"branch_coverage": {k: "%d / %d (%s)" % (v["executed"], v["branch_outcomes"], v["lines"]) for k, v in table.items()},
+            "branch_outcomes_total": sum(v["branch_outcomes"] for v in table.values()),
+            "branch_outcomes_executed": sum(v["executed"] for v in table.values()),
+            "branch_outcomes_not_executed": missing,
+            "branch_outcomes_not_executed_unexplained": unexplained,
+            "branch_coverage_note": "gcov -b on RandomTools.cpp / RandomTools.h (-O0 --coverage) under exactly the scripts of this run; "
+                                    "every outcome not executed is explained in props/C08.coverage.md"}
+
+
+def write_coverage_md(seed=1):
+    """props/C08.coverage.md from real runs of the quick tier (with and without the families beyond the ranges)"""
+    D = _distcov()
+    rng = random.Random(seed)
+    inrange = []
+    inrange += guard_grid(rng, "quick"); inrange += guard_random(rng, 10000); inrange += norm_tie(rng, 20000)
+    inrange += explore(rng, 3000); inrange += kernel_grid(); inrange += kernel_random(rng, 6000)
+    allc = inrange + kernel_extension(rng, 1500)
+    old = []
+    rng0 = random.Random(seed)
+    old += guard_grid(rng0, "quick"); old += guard_random(rng0, 10000); old += norm_tie(rng0, 20000); old += explore(rng0, 3000)
+    t_old, _, r_old = D.measure(old)
+    t_in, _, r_in = D.measure(inrange)
+    t_all, _, r_all = D.measure(allc)
+    L = ["# C08 - branch coverage of the anchored routines by the generated scripts", "",
+         "Measured with `gcov -b` (RandomTools.cpp and the inline wrappers of RandomTools.h compiled `-O0 --coverage`,",
+         "`tools/gen_distcov.py`) under exactly the scripts of the quick tier, seed %d. A *branch outcome* is one `branch N` line" % seed,
+         "of gcov: each operand of `&&` / `||` counts with both outcomes; exception edges of calls (`(throw)`) are not counted.",
+         "Every run of `tools/check.py C08` repeats the measurement and stores it in `evidence/C08.json`",
+         "(`coverage.branch_coverage`, `coverage.branch_outcomes_not_executed`). Written by `python3 gens/C08.py coverage`.", "",
+         "Columns: round 1 = the scripts of round 1 (guard grids, pNorm/qNorm tie, exploration); in range = round 2 quick tier",
+         "restricted to the property's parameter ranges; all = with the families beyond the ranges (`kext`: beta quantile",
+         "shapes in [0.02, 0.3), incomplete beta shapes up to 1e6; bit-exact tie and exact reflections only).", "",
+         "## Per routine", "", "| routine | lines | branch outcomes | round 1 | in range | all |", "|---|---|---|---|---|---|"]
+    for k in t_all:
+        L.append("| %s | %s | %d | %d | %d | %d |" % (k, t_all[k]["lines"], t_all[k]["branch_outcomes"], t_old[k]["executed"], t_in[k]["executed"], t_all[k]["executed"]))
+    L.append("| **total** | | %d | %d | %d | %d |" % tuple(sum(t[k][f] for k in t) for t, f in ((t_all, "branch_outcomes"), (t_old, "executed"), (t_in, "executed"), (t_all, "executed"))))
+    L += ["", "## Outcomes not executed inside the property's ranges", "",
+          "| routine | line | condition | gcov branch | executed by `kext` | why |", "|---|---|---|---|---|---|"]
+    for (name, fn, line, text, c_in), (_, _, _, _, c_all) in zip(r_in, r_all):
+        for (b, n), (_, na) in zip(c_in, c_all):
+            if n == 0:
+                why = NOT_EXECUTED.get((name, text, b)) or ONLY_BEYOND_RANGE.get((name, text, b)) or "UNEXPLAINED"
+                L.append("| %s | %s:%d | `%s` | %d | %s | %s |" % (name, fn, line, text.replace("|", "\\|"), b, "yes (%d)" % na if na else "no", why.replace("|", "\\|")))
+    L += ["", "## Every branch outcome (hits: round 1 / in range / all)", "", "| routine | line | condition | hits per gcov branch |", "|---|---|---|---|"]
+    for (name, fn, line, text, c_old), (_, _, _, _, c_in), (_, _, _, _, c_all) in zip(r_old, r_in, r_all):
+        L.append("| %s | %s:%d | `%s` | %s |" % (name, fn, line, text.replace("|", "\\|"),
+                                                  "; ".join("%d: %d / %d / %d" % (b, o, i_, a) for (b, o), (_, i_), (_, a) in zip(c_old, c_in, c_all))))
+    p = os.path.join(os.path.dirname(os.path.dirname(os.path.abspath(__file__))), "props", "C08.coverage.md")
+    with open(p, "w") as f:
+        f.write("\n".join(L) + "\n")
+    return p
 
 
 if __name__ == "__main__":
+    if len(sys.argv) > 1 and sys.argv[1] == "coverage":
+        print(write_coverage_md(int(sys.argv[2]) if len(sys.argv) > 2 else 1))
+        sys.exit(0)
     cs = generate(int(sys.argv[1]) if len(sys.argv) > 1 else 1, sys.argv[2] if len(sys.argv) > 2 else "quick")
     hist = {}
     for c in cs:
